@@ -479,7 +479,16 @@ class Engine:
     # ---- expressions
     def cond(self, e, st):
         if isinstance(e, ast.BoolOp):
-            ps = [self.cond(x, st) for x in e.values]
+            # short-circuit: operand i is evaluated under the knowledge that the earlier ones did not decide the result
+            ps, pushed = [], 0
+            try:
+                for x in e.values:
+                    p = self.cond(x, st)
+                    ps.append(p)
+                    st.pc.append(p if isinstance(e.op, ast.And) else z3.Not(p))
+                    pushed += 1
+            finally:
+                del st.pc[len(st.pc) - pushed:]
             return z3.And(*ps) if isinstance(e.op, ast.And) else z3.Or(*ps)
         if isinstance(e, ast.UnaryOp) and isinstance(e.op, ast.Not):
             return z3.Not(self.cond(e.operand, st))
@@ -589,7 +598,18 @@ class Engine:
         if isinstance(e, ast.Compare):
             return Bool(self.cond(e, st))
         if isinstance(e, ast.IfExp):
-            return self.ite(self.cond(e.test, st), self.ev(e.body, st), self.ev(e.orelse, st))
+            c = self.cond(e.test, st)
+            st.pc.append(c)
+            try:
+                a = self.ev(e.body, st)
+            finally:
+                st.pc.pop()
+            st.pc.append(z3.Not(c))
+            try:
+                b = self.ev(e.orelse, st)
+            finally:
+                st.pc.pop()
+            return self.ite(c, a, b)
         if isinstance(e, ast.Subscript):
             return self.subscript(e, st)
         if isinstance(e, ast.Call):
